@@ -1,8 +1,9 @@
 """C03 - do_all / on_each (structural clauses)."""
-from gsa.cfg import Fn, S, SN, is_call, is_assign, walk, lit
+from gsa.cfg import Fn, S, SN, is_call, is_assign, walk, lit, cmp_pred
 from gsa import lock as L
 from gsa import rules as R
 from . import wl_locks
+from . import mo
 
 EXPL = ("do_all stealing executor (every instantiation in the driver matrix: steal x {random access, forward, "
         "local-iterator container, integer range}), on_each and the thread pool, every CFG path: the shared range "
@@ -41,6 +42,9 @@ def run(ctx):
     pool(ctx, fx)
     on_each(ctx, fx)
     clamp_agreement(ctx, fx)
+    # the join is only a join if the loads that see a child's `done` acquire what the child wrote (and the stores release):
+    # the thread pool's rows of the memory-order table are part of this property (C06 evaluates the whole table)
+    mo.check_rows(ctx, fx, "C03", mo.THREADPOOL_ROWS, floor=8)
 
 
 def clamp_agreement(ctx, fx):
@@ -357,6 +361,34 @@ def pool(ctx, fx):
              "the slow path writes done and waits on it under the same mutex")
     ctx.rule("C03.pool.region-once", "threadLoop / runInternal: wait -> cascade -> work() exactly once -> decascade; "
              "decascade's last action is done = 1, after waiting for the children")
+    def spin_waits(fn, f):
+        """[(position, what is waited for, alias-expanded)] -- a busy wait is an atomic load that can reach itself again (a
+        loop polling the flag), written in the function itself or in a helper the flag is handed to by reference
+        (`spinUntilSet(signals[i]->done)`)"""
+        out = []
+        al = fn.aliases()
+        nrm = lambda x: x.replace("me.", "this->my_box.").replace("my_box.", "this->my_box.").replace("this->this->", "this->")
+        for pos, e in fn.events(lambda e: e.get("k") == "atomic" and e["kind"] == "load"):
+            again, _ = fn.search([fn.after(pos)], stop=lambda x, e=e: x is e)
+            if again:
+                out.append((pos, nrm(S(e.get("obj"), al))))
+        for pos, ce in fn.events(lambda e: e.get("k") == "call" and e.get("fk")):
+            g = fx.callee(ce)
+            if g is None or g is f or not g.get("blocks") or g["kind"] == "pattern":
+                continue
+            gfn = ctx.fn(g)
+            for k, arg in enumerate(ce.get("a", [])):
+                if k >= len(g.get("params", [])):
+                    continue
+                pn = g["params"][k]["n"]
+                for gpos, ge in gfn.events(lambda e: e.get("k") == "atomic" and e["kind"] == "load"):
+                    if S(ge.get("obj"), gfn.aliases()) != pn:
+                        continue
+                    again, _ = gfn.search([gfn.after(gpos)], stop=lambda x, ge=ge: x is ge)
+                    if again:
+                        out.append((pos, nrm(S(arg, al))))
+        return out
+
     cs = fx.fns(qn=TP + "::cascade")
     ds = fx.fns(qn=TP + "::decascade")
     ctx.floor("ThreadPool::cascade/decascade", min(len(cs), len(ds)), 1)
@@ -369,13 +401,13 @@ def pool(ctx, fx):
         ch1, ch2 = c.defs().get("child1"), c.defs().get("child2")
         s1 = S(ch1, c.aliases()) if ch1 is not None else ""
         s2 = S(ch2, c.aliases()) if ch2 is not None else ""
-        dal = d.aliases()
-        w1 = S(dal.get("c1done"), dal) if "c1done" in dal else ""
-        w2 = S(dal.get("c2done"), dal) if "c2done" in dal else ""
-        if not s1 or w1 != s1 + "->done":
-            det.append("first child woken %s, waited for %s" % (s1, w1))
-        if not s2 or w2 != s2 + "->done":
-            det.append("second child woken %s, waited for %s" % (s2, w2))
+        dwaits = spin_waits(d, ds[0])
+        nrm2 = lambda x: x.replace("me.", "this->my_box.").replace("my_box.", "this->my_box.").replace("this->this->", "this->")
+        wt = sorted({w for _, w in dwaits})
+        if not s1 or nrm2(s1) + "->done" not in wt:
+            det.append("first child woken %s, waited for %s" % (s1, wt))
+        if not s2 or nrm2(s2) + "->done" not in wt:
+            det.append("second child woken %s, waited for %s" % (s2, wt))
         # guards
         def guards(fn):
             out = []
@@ -409,11 +441,9 @@ def pool(ctx, fx):
             rng2 = lambda e, ch=ch: e.get("k") == "assign" and e.get("lp") == ch + "->wbegin"
             if sum(1 for _ in c.events(wk)) != 1 or c.reaches_without(wk, rng) or c.reaches_without(wk, rng2):
                 det.append("%s woken before its range is written (or not exactly once)" % ch)
-        # decascade waits: spin loops on both children
-        for nm in ("c1done", "c2done"):
-            ld = lambda e, nm=nm: e.get("k") == "atomic" and e["kind"] == "load" and e["p"] == nm
-            if not any(True for _ in d.events(ld)):
-                det.append("no wait on %s" % nm)
+        # decascade waits: spin loops on both children (checked above: each child woken is in the set waited for)
+        if len(wt) < 2:
+            det.append("decascade busy-waits on %s, expected both children" % wt)
         ctx.ob("C03.pool.cascade-decascade-agree", TP + "::cascade", not det, "; ".join(det), c.loc(), "children",
                fnkey=cs[0]["key"])
         # done = 1 last, after the waits, on every path
@@ -426,9 +456,14 @@ def pool(ctx, fx):
             if h:
                 det.append("atomic access after done = 1")
         # on the path with children the waits precede done = 1
-        haskids = lambda t: norm(S(t, d.aliases())) in ("(this->my_box.wbegin != this->my_box.wend)",)
+        def haskids(t):      # `wbegin != wend` in any spelling (== answers "negated"), through `me.` or `my_box.`
+            s_ = norm(SN(t, d.aliases()))
+            pos, neg = "(this->my_box.wbegin != this->my_box.wend)", "(this->my_box.wbegin == this->my_box.wend)"
+            return True if s_ == pos else ("neg" if s_ == neg else False)
         gek = d.guard_edges(haskids, False)
-        ld1 = lambda e: e.get("k") == "atomic" and e["kind"] == "load" and e["p"] == "c1done"
+        first = nrm2(s1) + "->done"
+        w1pos = {p for p, w in dwaits if w == first}
+        ld1 = lambda e: any(d.ev(p) is e for p in w1pos)
         if d.reaches_without(done1, ld1, edge_ok=lambda b, i, s: (b, i) not in gek) or not gek:
             det.append("done = 1 reachable without waiting for the first child")
         ctx.ob("C03.pool.region-once", TP + "::decascade", not det, "; ".join(det), d.loc(), "done", fnkey=ds[0]["key"])
